@@ -1,4 +1,4 @@
-// ---- prelude/resolver_env.rs: environment of the emulated resolver -------------------------
+// ---- prelude/resolver_static.rs: environment of the emulated resolver under the static-tree hypothesis
 use std::rc::Rc;
 use std::collections::VecDeque;
 pub assume_specification<T, A: core::alloc::Allocator>[VecDeque::<T, A>::is_empty](v: &VecDeque<T, A>) -> (r: bool)
@@ -29,7 +29,7 @@ pub trait FdExt: AsFd {
     /// utils/fd.rs FdExt::metadata (U15)
     #[verifier::external_body]
     fn metadata(&self) -> (r: Result<Metadata, Error>)
-        ensures r matches Ok(m) ==> m == meta_of(self.fd_id())
+        ensures r matches Ok(m) ==> m.symlink() == fs_is_symlink(ino_of(self.fd_id()) as int)
     { unimplemented!() }
     #[verifier::external_body]
     fn is_magiclink_filesystem(&self) -> (r: Result<bool, Error>) { unimplemented!() }
@@ -58,16 +58,25 @@ impl PathBuf {
     pub fn new() -> (r: PathBuf) ensures r@.len() == 0 { unimplemented!() }
     #[verifier::external_body]
     pub fn join(&self, p: PathBuf) -> (r: PathBuf) ensures r@ == join_spec(self@, p@) { unimplemented!() }
-    /// A7: pop() removes the last component; false iff there is none ("/" or "")
+    /// the path as a stack of normal components below "/" (only meaningful for `expected_path`)
+    pub uninterp spec fn stack(&self) -> Seq<Seq<u8>>;
+    /// A7: pop() removes the last component; false iff there is none ("/")
     #[verifier::external_body]
-    pub fn pop(&mut self) -> (r: bool) { unimplemented!() }
+    pub fn pop(&mut self) -> (r: bool)
+        ensures r == (old(self).stack().len() > 0),
+                r ==> final(self).stack() == old(self).stack().drop_last(),
+                !r ==> final(self).stack() == old(self).stack(),
+    { unimplemented!() }
+    /// A7: push() of a normal component ('/'-free, not "", ".", "..") appends it
     #[verifier::external_body]
-    pub fn push<P: AsRefPath>(&mut self, p: P) { unimplemented!() }
+    pub fn push<P: AsRefPath>(&mut self, p: P)
+        ensures (p.pview() != DOT() && p.pview() != DOTDOT() && p.pview() != EMPTY()) ==> final(self).stack() == old(self).stack().push(p.pview())
+    { unimplemented!() }
     #[verifier::external_body]
     pub fn is_absolute(&self) -> (r: bool) ensures r == (self@.len() > 0 && self@[0] == 47u8) { unimplemented!() }
 }
 #[verifier::external_body]
-pub fn pathbuf_lit(b: &'static [u8]) -> (r: PathBuf) ensures r@ == b@ { unimplemented!() }
+pub fn pathbuf_lit(b: &'static [u8]) -> (r: PathBuf) ensures r@ == b@, (b@ =~= seq![47u8]) ==> r.stack().len() == 0 { unimplemented!() }
 #[verifier::external_body]
 pub fn osstring_lit(b: &'static [u8]) -> (r: OsString) ensures r@ == b@ { unimplemented!() }
 
@@ -75,8 +84,7 @@ pub fn osstring_lit(b: &'static [u8]) -> (r: OsString) ensures r@ == b@ { unimpl
 /// (contract derived from RawComponents::next, U01, + std map/collect semantics, A7)
 #[verifier::external_body]
 pub fn collect_components<P: AsRefPath>(path: &P) -> (r: VecDeque<OsString>)
-    ensures r@.len() == split(path.pview()).len(),
-        forall|i: int| 0 <= i < r@.len() ==> #[trigger] r@[i]@ == split(path.pview())[i],
+    ensures cv(r@) == split(path.pview()),
         forall|i: int| 0 <= i < r@.len() ==> no_slash(#[trigger] r@[i]@),
 { unimplemented!() }
 /// R6 (join_remaining): `Itertools::intersperse(once(&part).chain(rest.iter()).map(as_os_str), "/").collect::<OsString>().into()`
@@ -102,25 +110,11 @@ impl SymlinkStack<OwnedFd> {
     pub fn pop_part(&mut self, part: &OsString) -> (r: Result<(), SymlinkStackError>) { unimplemented!() }
     #[verifier::external_body]
     pub fn swap_link(&mut self, link_part: &OsString, dir_and_remaining: (&Rc<OwnedFd>, PathBuf), link_target: PathBuf) -> (r: Result<(), SymlinkStackError>)
-        requires lineage(dir_and_remaining.0.id()),              // [C02+C12.swap_link.saved_directory_in_root]
-    { unimplemented!() }
+            { unimplemented!() }
     #[verifier::external_body]
     pub fn pop_top_symlink(&mut self) -> (r: Option<(Rc<OwnedFd>, PathBuf)>)
-        ensures r matches Some((h, _)) ==> lineage(h.id())
     { unimplemented!() }
 }
-/// A3 (procfs witness): the root's path was read, then the handle's path, then the root's path
-/// again; the two root reads agree and the handle's path equals <root path>/./<expected>.  Then
-/// the handle's object was reachable under the root at the moment of the middle read.
-pub proof fn axiom_a3_procfs_witness(root: int, cur: int, rp: Seq<u8>, cp: Seq<u8>, rp2: Seq<u8>, expected: Seq<u8>)
-    requires
-        observed(root, rp, 1),                                  // [C02.A3.root_path_read_first]
-        observed(cur, cp, 2),                                   // [C02.A3.handle_path_read]
-        observed(root, rp2, 3),                                 // [C02.A3.root_path_reread_after]
-        path_eq(rp, rp2),                                       // [C02.A3.root_did_not_move]
-        path_eq(cp, join_spec(rp, dot_then(expected))),         // [C01+C02.A3.handle_path_is_root_plus_expected]
-    ensures lineage(cur)
-{ admit(); }
 //@item src/utils/path.rs :: struct RawComponents | sub.derive_debug
 impl PathBuf {
     #[verifier::external_body]
